@@ -123,6 +123,7 @@ func (r *reader) ResetPosition() {
 	r.line = -1
 	r.head = 0
 	r.lineOffset = -1
+	r.pos = Segment{}
 	r.AdvanceLine()
 }
 
